@@ -23,14 +23,21 @@ VARIABLES nin, condense, sets0, todo, im, pos, count, phase
 vars == <<nin, condense, sets0, todo, im, pos, count, phase>>
 
 MergeSets(n) == {s \in UNION {[1..k -> 0..n-1] : k \in 1..MaxLen} : \A i \in 1..Len(s)-1 : s[i] <= s[i+1]}
-SeqsUpTo(S, k) == UNION {[1..j -> S] : j \in 0..k}
 
 Init == /\ nin \in 1..MaxN
         /\ condense \in BOOLEAN
-        /\ sets0 \in SeqsUpTo(MergeSets(nin), MaxSets)
-        /\ todo = sets0
+        /\ sets0 = <<>> /\ todo = <<>>
         /\ im = [i \in 0..nin-1 |-> i]
-        /\ pos = 0 /\ count = 0 /\ phase = "merge"
+        /\ pos = 0 /\ count = 0 /\ phase = "input"
+
+(* the caller supplies the merge sets one by one (an iterable) *)
+AddSet ==
+    /\ phase = "input" /\ Len(sets0) < MaxSets
+    /\ \E s \in MergeSets(nin) : sets0' = Append(sets0, s) /\ todo' = Append(todo, s)
+    /\ UNCHANGED <<nin, condense, im, pos, count, phase>>
+Start ==
+    /\ phase = "input" /\ phase' = "merge"
+    /\ UNCHANGED <<nin, condense, sets0, todo, im, pos, count>>
 
 RECURSIVE Root(_, _)
 Root(m, i) == IF m[i] = i THEN i ELSE Root(m, m[i])       \* while (parent := index_map[index]) != index: index = parent
@@ -64,7 +71,7 @@ Done ==
     /\ phase' = "done"
     /\ UNCHANGED <<nin, condense, sets0, todo, im, pos, count>>
 
-Next == MergeStep \/ StartFinish \/ Finish \/ Done
+Next == AddSet \/ Start \/ MergeStep \/ StartFinish \/ Finish \/ Done
 Spec == Init /\ [][Next]_vars
 
 ---------------------------------------------------------------------------
@@ -72,7 +79,7 @@ AsSets == {BSet(sets0[k]) : k \in 1..Len(sets0)}
 Merged == {BSet(sets0[k]) : k \in 1..Len(sets0) - Len(todo)}     \* the merge sets processed so far
 
 TypeOK == /\ im \in [0..nin-1 -> 0..nin-1] /\ pos \in 0..nin /\ count \in 0..nin
-          /\ phase \in {"merge", "finish", "done"}
+          /\ phase \in {"input", "merge", "finish", "done"}
 (* pointers point downwards: following them terminates, and what Finish reads has been finished *)
 Downwards == phase = "merge" => \A i \in 0..nin-1 : im[i] <= i
 (* while merging, the roots are exactly the smallest members of the classes of the sets merged so far *)
